@@ -136,46 +136,53 @@ def allowLock : List String :=
    "cluster_definition.definition_hash",
    "cluster_definition.operators[].nonce", "distributed_validators[].fee_recipient_address"]
 
+/-- name of an interned JSON path id of the generated data. -/
+def nm (i : Nat) : String := pathName pathTable i
+
 /-- every JSON leaf of the definition file is read by the config hash or the definition hash, every
 JSON leaf of the lock file by the lock hash (which embeds the definition hash) or by the config hash
 of the embedded definition (checked by `Lock.VerifyHashes` through `Definition.VerifyHashes`), or is
-allow-listed. -/
+allow-listed by name. -/
 def coversVersion (v : String) : Bool :=
   match schemas.find? (·.1 == v), fields.find? (·.1 == v) with
-  | some (_, c, d, l), some (_, df, lf) =>
-    coveredBy df (c.mentions ++ d.mentions) allowDef &&
-    coveredBy lf (l.mentions ++ (c.mentions.map ("cluster_definition." ++ ·))) allowLock
+  | some (_, c, d, l, lc), some (_, df, lf) =>
+    coveredBy pathTable df (c.mentions ++ d.mentions) allowDef &&
+    coveredBy pathTable lf (l.mentions ++ lc.mentions) allowLock
   | _, _ => false
 
 /-- the list of format versions the theorems below enumerate is the list in the Go source. -/
 theorem schema_versions_complete :
     versions = ["v1.0.0", "v1.1.0", "v1.2.0", "v1.3.0", "v1.4.0", "v1.5.0", "v1.6.0", "v1.7.0",
       "v1.8.0", "v1.9.0", "v1.10.0", "v1.11.0"] ∧
-    schemas.map (·.1) = versions ∧ fields.map (·.1) = versions := by decide
+    schemas.map (·.1) = versions ∧ fields.map (·.1) = versions := by decide +kernel
 
-theorem schema_covers_fields_v1_0 : coversVersion "v1.0.0" = true := by decide
-theorem schema_covers_fields_v1_1 : coversVersion "v1.1.0" = true := by decide
-theorem schema_covers_fields_v1_2 : coversVersion "v1.2.0" = true := by decide
-theorem schema_covers_fields_v1_3 : coversVersion "v1.3.0" = true := by decide
-theorem schema_covers_fields_v1_4 : coversVersion "v1.4.0" = true := by decide
-theorem schema_covers_fields_v1_5 : coversVersion "v1.5.0" = true := by decide
-theorem schema_covers_fields_v1_6 : coversVersion "v1.6.0" = true := by decide
-theorem schema_covers_fields_v1_7 : coversVersion "v1.7.0" = true := by decide
-theorem schema_covers_fields_v1_8 : coversVersion "v1.8.0" = true := by decide
-theorem schema_covers_fields_v1_9 : coversVersion "v1.9.0" = true := by decide
-theorem schema_covers_fields_v1_10 : coversVersion "v1.10.0" = true := by decide
-theorem schema_covers_fields_v1_11 : coversVersion "v1.11.0" = true := by decide
+theorem schema_covers_fields_v1_0 : coversVersion "v1.0.0" = true := by decide +kernel
+theorem schema_covers_fields_v1_1 : coversVersion "v1.1.0" = true := by decide +kernel
+theorem schema_covers_fields_v1_2 : coversVersion "v1.2.0" = true := by decide +kernel
+theorem schema_covers_fields_v1_3 : coversVersion "v1.3.0" = true := by decide +kernel
+theorem schema_covers_fields_v1_4 : coversVersion "v1.4.0" = true := by decide +kernel
+theorem schema_covers_fields_v1_5 : coversVersion "v1.5.0" = true := by decide +kernel
+theorem schema_covers_fields_v1_6 : coversVersion "v1.6.0" = true := by decide +kernel
+theorem schema_covers_fields_v1_7 : coversVersion "v1.7.0" = true := by decide +kernel
+theorem schema_covers_fields_v1_8 : coversVersion "v1.8.0" = true := by decide +kernel
+theorem schema_covers_fields_v1_9 : coversVersion "v1.9.0" = true := by decide +kernel
+theorem schema_covers_fields_v1_10 : coversVersion "v1.10.0" = true := by decide +kernel
+theorem schema_covers_fields_v1_11 : coversVersion "v1.11.0" = true := by decide +kernel
 
 /-- the definition hash alone (without the config hash) already reads every definition leaf from
-v1.1 on (v1.0 leaves `timestamp` to the config hash). -/
+v1.1 on, except the stored `config_hash` of v1.1 / v1.2 (v1.0 leaves `timestamp` to the config hash). -/
 theorem definition_hash_covers_all_from_v1_1 :
-    ((schemas.zip fields).drop 1).all (fun (s, f) => coveredBy f.2.1 s.2.2.1.mentions allowDef) = true := by
-  decide
+    ((schemas.zip fields).drop 1).all (fun (s, f) => coveredBy pathTable f.2.1 s.2.2.1.mentions allowDef) = true := by
+  decide +kernel
 
-/-- from v1.3 on the definition hash (hence the lock hash) also reads the stored `config_hash`. -/
+/-- from v1.3 on the definition hash (hence the lock hash) also reads the stored `config_hash`:
+the only unhashed definition leaves are then `definition_hash` itself (and no `nonce` exists). -/
 theorem definition_hash_reads_config_hash_from_v1_3 :
-    (schemas.drop 3).all (fun s => s.2.2.1.mentions.contains "config_hash" &&
-      s.2.2.2.mentions.contains "cluster_definition.config_hash") = true := by decide
+    ((schemas.zip fields).drop 3).all (fun (s, f) =>
+      coveredBy pathTable f.2.1 s.2.2.1.mentions ["definition_hash"] &&
+      coveredBy pathTable f.2.2 (s.2.2.2.1.mentions ++ s.2.2.2.2.mentions)
+        ["lock_hash", "signature_aggregate", "node_signatures[]", "cluster_definition.definition_hash",
+         "distributed_validators[].fee_recipient_address"]) = true := by decide +kernel
 
 /-- **Well-formed schemas.** Config hash and definition hash of v1.5 … v1.10, config hash of v1.11
 and the lock hashes of v1.5 and v1.6: no raw `PutBytes`, every list closed by a `MerkleizeWithMixin`
@@ -183,18 +190,18 @@ with constant limit that mixes in the length of the list it loops over, one chun
 theorem modern_schema_wf :
     (schemas.filter (fun s => ["v1.5.0", "v1.6.0", "v1.7.0", "v1.8.0", "v1.9.0", "v1.10.0"].contains s.1)).all
       (fun s => s.2.1.wf && s.2.2.1.wf) = true ∧
-    cfg_v1_11.wf = true ∧ lock_v1_5.wf = true ∧ lock_v1_6.wf = true := by decide
+    cfg_v1_11.wf = true ∧ lock_v1_5.wf = true ∧ lock_v1_6.wf = true := by decide +kernel
 
 /-- **All schemas are well-formed up to raw leaves**: groups and lists are closed correctly (every
 list mixes in the length of the list it loops over, legacy versions with `limit = num`); the only
 deviation from `wf` are the raw `PutBytes` leaves listed by the theorems below. -/
 theorem legacy_schema_wf :
-    schemas.all (fun s => s.2.1.wfLegacy && s.2.2.1.wfLegacy && s.2.2.2.wfLegacy) = true := by decide
+    schemas.all (fun s => s.2.1.wfLegacy && s.2.2.1.wfLegacy && s.2.2.2.1.wfLegacy) = true := by decide +kernel
 
 /-- raw `PutBytes` leaves of the config / definition hash per version — for these
 `encode_injective_partial` needs the equal-length hypothesis `rawAgree`. -/
 theorem raw_putbytes_fields_definition :
-    schemas.map (fun s => (s.1, (s.2.1.rawFields ++ s.2.2.1.rawFields).eraseDups)) =
+    schemas.map (fun s => (s.1, ((s.2.1.rawFields ++ s.2.2.1.rawFields).eraseDups).map nm)) =
     [("v1.0.0", ["uuid", "name", "version", "validators[].fee_recipient_address", "validators[].withdrawal_address",
         "dkg_algorithm", "fork_version", "operators[].address", "timestamp", "operators[].enr",
         "operators[].config_signature", "operators[].enr_signature"]),
@@ -210,12 +217,12 @@ theorem raw_putbytes_fields_definition :
         "operators[].address", "creator.address", "operators[].config_signature", "operators[].enr_signature",
         "creator.config_signature", "config_hash"]),
      ("v1.5.0", []), ("v1.6.0", []), ("v1.7.0", []), ("v1.8.0", []), ("v1.9.0", []), ("v1.10.0", []),
-     ("v1.11.0", ["config_hash"])] := by decide
+     ("v1.11.0", ["config_hash"])] := by decide +kernel
 
 /-- raw `PutBytes` leaves the lock hash adds to those of the embedded definition hash. -/
 theorem raw_putbytes_fields_lock :
-    schemas.map (fun s => (s.1, s.2.2.2.rawFields.filter
-      (fun p => !(s.2.2.1.rawFields.map ("cluster_definition." ++ ·)).contains p))) =
+    schemas.map (fun s => (s.1, ((s.2.2.2.1.rawFields.eraseDups).map nm).filter
+      (fun p => !(s.2.2.1.rawFields.map (fun i => "cluster_definition." ++ nm i)).contains p))) =
     [("v1.0.0", ["distributed_validators[].distributed_public_key", "distributed_validators[].public_shares[]"]),
      ("v1.1.0", ["distributed_validators[].distributed_public_key", "distributed_validators[].public_shares[]"]),
      ("v1.2.0", ["distributed_validators[].distributed_public_key", "distributed_validators[].public_shares[]"]),
@@ -226,6 +233,6 @@ theorem raw_putbytes_fields_lock :
      ("v1.8.0", ["distributed_validators[].builder_registration.message.fee_recipient"]),
      ("v1.9.0", ["distributed_validators[].builder_registration.message.fee_recipient"]),
      ("v1.10.0", ["distributed_validators[].builder_registration.message.fee_recipient"]),
-     ("v1.11.0", ["distributed_validators[].builder_registration.message.fee_recipient"])] := by decide
+     ("v1.11.0", ["distributed_validators[].builder_registration.message.fee_recipient"])] := by decide +kernel
 
 end CharonV.Ssz
